@@ -2,6 +2,7 @@ import Hertz.Proofs.Resp
 import Hertz.Spec.Http
 import Hertz.Proofs.SpecHex
 import Hertz.Proofs.Dec
+import Hertz.Proofs.HeaderWrite
 namespace Hertz.ReqDecodes
 open Hertz Hertz.Gen.Str Hertz.Spec.Http
 
@@ -494,7 +495,6 @@ all field lines well formed -/
 def wfReq (r : HW.ReqHdr) : Bool :=
   (r.method.isEmpty || isToken r.method) && (r.uri.isEmpty || validTarget r.uri) && wfFields r.fields
 
-theorem reqhdr_bytes_eq (r : HW.ReqHdr) : r.bytes = head r.methodOrGet (reqTarget r) r.fields := rfl
 
 theorem wfReq_method (r : HW.ReqHdr) (h : wfReq r = true) : isToken r.methodOrGet = true := by
   simp only [wfReq, Bool.and_eq_true, Bool.or_eq_true] at h
@@ -509,6 +509,20 @@ theorem wfReq_target (r : HW.ReqHdr) (h : wfReq r = true) : validTarget (reqTarg
   cases he : r.uri.isEmpty
   · simpa [he] using h.1.2
   · simp only [if_true]; decide
+
+/-- /repo 910b0dd: method and target go through `appendRequestLinePart`, which leaves a token and a valid target alone -/
+theorem reqhdr_bytes_eq (r : HW.ReqHdr) (hw : wfReq r = true) : r.bytes = head r.methodOrGet (reqTarget r) r.fields := by
+  have hm : HW.reqLinePart r.methodOrGet = r.methodOrGet :=
+    HW.reqLinePart_id _ (fun x hx => by
+      have := token_clean _ (wfReq_method r hw) x hx
+      simp [HW.lineSpecial, this.1, this.2.1, this.2.2])
+  have ht : HW.reqLinePart (reqTarget r) = reqTarget r :=
+    HW.reqLinePart_id _ (fun x hx => by
+      have := target_clean _ (wfReq_target r hw) x hx
+      simp [HW.lineSpecial, this.1, this.2.1, this.2.2])
+  unfold HW.ReqHdr.bytes HW.ReqHdr.startLine head
+  unfold reqTarget at ht ⊢
+  rw [hm, ht]
 
 theorem wfReq_fields (r : HW.ReqHdr) (h : wfReq r = true) : wfFields r.fields = true := by
   simp only [wfReq, Bool.and_eq_true] at h
@@ -533,7 +547,7 @@ theorem reqhdr_decodes_nobody (r : HW.ReqHdr) (rest : Bytes) (hw : wfReq r = tru
     decodeOne (r.bytes ++ rest) =
       some ({ method := r.methodOrGet, target := reqTarget r, fields := r.fields, body := [], trailers := [],
               foldedColon := false }, rest) := by
-  rw [reqhdr_bytes_eq]
+  rw [reqhdr_bytes_eq r hw]
   exact decodes_nobody _ _ _ rest (wfReq_method r hw) (wfReq_target r hw) (wfReq_fields r hw) hcl hte
 
 theorem reqhdr_decodes_fixed (r : HW.ReqHdr) (body rest : Bytes) (hw : wfReq r = true)
@@ -542,7 +556,7 @@ theorem reqhdr_decodes_fixed (r : HW.ReqHdr) (body rest : Bytes) (hw : wfReq r =
     decodeOne (r.bytes ++ body ++ rest) =
       some ({ method := r.methodOrGet, target := reqTarget r, fields := r.fields, body := body, trailers := [],
               foldedColon := false }, rest) := by
-  rw [reqhdr_bytes_eq]
+  rw [reqhdr_bytes_eq r hw]
   exact decodes_fixed _ _ _ r.clBytes body rest (wfReq_method r hw) (wfReq_target r hw) (wfReq_fields r hw)
     hcl hn hte
 
@@ -553,7 +567,7 @@ theorem reqhdr_decodes_chunked (r : HW.ReqHdr) (te : Bytes) (reads : List Bytes)
     decodeOne (r.bytes ++ H1.Resp.chunkedWire reads tr ++ rest) =
       some ({ method := r.methodOrGet, target := reqTarget r, fields := r.fields, body := reads.flatten,
               trailers := tr, foldedColon := false }, rest) := by
-  rw [reqhdr_bytes_eq]
+  rw [reqhdr_bytes_eq r hw]
   exact decodes_chunked _ _ _ te reads tr rest (wfReq_method r hw) (wfReq_target r hw) (wfReq_fields r hw)
     hcl hte hch hr htr
 
